@@ -150,6 +150,8 @@ def economy(draw, zones=(1, 3), horizon=(3, 5), want_cross=None, gold=True, fede
             c0 = draw(country(codes[0], 'central', K, gold_left > 0))
             zone['countries'].append(c0)
             nm = draw(st.sampled_from([2, 1, 2]))
+            if draw(gen.chance(1, 3)):
+                c0['fin_markets_in'] = 1      # money / deposit / bond markets declared in the first member region
             for mi in range(nm):
                 m = draw(country(codes[1 + mi], 'member', K, False))
                 # REG2 idiom: a Region created without a currency takes the currency of the country declared before it
@@ -257,7 +259,7 @@ def economy(draw, zones=(1, 3), horizon=(3, 5), want_cross=None, gold=True, fede
 
 
 PROBE_KINDS = ['zone-sectors', 'zone-lookup', 'model-sectors', 'country-lookup', 'model-lookup', 'dump', 'loginfo',
-               'zone-sectors', 'zone-lookup', 'shared-zone', 'other-model', 'other-model']
+               'zone-sectors', 'zone-lookup', 'shared-zone', 'other-model', 'other-model', 'cross-rate', 'cross-rate']
 
 
 def run_probe(kind, mod, out, allow_loginfo=True):
@@ -296,6 +298,14 @@ def run_probe(kind, mod, out, allow_loginfo=True):
                 secs[-1].ShareParent(secs[0])
         elif kind == 'loginfo' and allow_loginfo:
             mod.LogInfo()
+        elif kind == 'cross-rate':
+            # asking the exchange-rate sector for the cross rates ahead of time (main() asks for them later anyway)
+            if mod.ExternalSector is not None:
+                curs = [cz.Currency for cz in mod.CurrencyZoneList if cz.Currency != 'NUMERAIRE']
+                for a_ in curs:
+                    for b_ in curs:
+                        if a_ != b_:
+                            mod.ExternalSector['XR'].GetCrossRate(a_, b_)
         elif kind == 'other-model':
             # an unrelated model is started (and left unfinished) while this one is being put together
             from sfc_models.models import Model, Country
@@ -500,20 +510,24 @@ def _construct(spec, out, mod, zsel, nm, dsc, make_external, order_seed, hooks, 
             if c['hh']:
                 decls.append(((zi, ci, 'labour'), [], (lambda cobj=cobj, labour=labour: Market(cobj, labour, dsc('labour')))))
                 decls.append(((zi, ci, 'goods'), [], (lambda cobj=cobj, goods=goods: Market(cobj, goods, dsc('goods')))))
+            # financial-asset markets may be declared in another country of the zone than their issuer
+            fobj = cobj
+            if c.get('fin_markets_in') is not None and (zi, c['fin_markets_in']) in out.countries:
+                fobj = out.countries[(zi, c['fin_markets_in'])]
             if c['money'] is not None:
                 issuer = g['cb_code'] if g['kind'] in ('treasury_cb', 'gold_cb') else g['code']
                 decls.append(((zi, ci, 'money'), [],
-                              (lambda cobj=cobj, c=c, issuer=issuer, zi=zi, ci=ci:
+                              (lambda cobj=fobj, c=c, issuer=issuer, zi=zi, ci=ci:
                                MoneyMarket(cobj, nm(zi, ci, c['money']['code']), dsc('money'),
                                            issuer_short_code=nm(zi, ci, issuer)))))
             if c.get('bonds') is not None:
                 decls.append(((zi, ci, 'bonds'), [],
-                              (lambda cobj=cobj, c=c, zi=zi, ci=ci, g=g:
+                              (lambda cobj=fobj, c=c, zi=zi, ci=ci, g=g:
                                DepositMarket(cobj, nm(zi, ci, c['bonds']['code']), dsc('bonds'),
                                              issuer_short_code=nm(zi, ci, g['code'])))))
             if c['deposit'] is not None:
                 decls.append(((zi, ci, 'deposit'), [],
-                              (lambda cobj=cobj, c=c, zi=zi, ci=ci, g=g:
+                              (lambda cobj=fobj, c=c, zi=zi, ci=ci, g=g:
                                DepositMarket(cobj, nm(zi, ci, c['deposit']['code']), dsc('deposit'),
                                              issuer_short_code=nm(zi, ci, g['code'])))))
     # ---- order: dependency-respecting shuffle driven by order_seed
